@@ -318,6 +318,8 @@ func (s genSpec) ops(st *genState) (out []opx) {
 				st.txn([]model.Act{{Op: "put", Off: r, W: []model.Write{W("n", V(1)), W("s", S("b")), W("b", V(0)), W("e", S("y"))}}}, false, ""),
 				st.txn([]model.Act{{Op: "put", Off: r, W: []model.Write{W("n", V(3)), W("b", V(1)), W("r", S("q")), W("f", V(0x7ff8000000000001)), W("u", V(0))}}}, false, ""),
 				st.txn([]model.Act{{Op: "put", Off: r, W: []model.Write{M("n", V(1)), M("f", V(0x3fd0000000000000)), M("u", V(65535))}}}, false, ""),
+				// present-but-empty / zero values: presence must travel, not only content
+				st.txn([]model.Act{{Op: "put", Off: r, W: []model.Write{W("s", S("")), W("e", S("")), W("r", S("")), W("n", V(0)), W("f", V(0)), W("u", V(0)), W("b", V(0))}}}, false, ""),
 				st.txn([]model.Act{{Op: "put", Off: r, W: []model.Write{M("s", S("x")), M("r", S("z"))}}}, false, ""),
 				st.txn([]model.Act{{Op: "put", Off: r, W: []model.Write{W("n", V(7)), M("n", V(1)), M("n", V(1))}}}, false, ""),
 				st.txn([]model.Act{{Op: "del", Off: r}}, false, ""),
